@@ -118,6 +118,20 @@ def build(case):
     if got[0] != "ok":
         mech = "empty-initialiser" if (form.startswith("empty")) else "construction-raised"
         raise Violation(mech, f"{desc} raised {got[1]}", {})
+    if case["init"] and case["init"][0] % 3 == 0:
+        # the initial values are themselves a SortedSet / SortedMap (a copy is made that way): afterwards the two
+        # objects must be independent - the source is modified and must not show through in the copy
+        src = got[1]
+        cp = _g("copy construction", lambda: type(src)(src))
+        if cp[0] != "ok":
+            raise Violation("construction-raised", f"{type(src).__name__}(other {type(src).__name__}) raised {cp[1]}", {})
+        if kind == "set":
+            src.add(12345.5)
+            src.discard(keys[0])
+        else:
+            src[12345.5] = "poison"
+            src[keys[0]] = "poison"
+        return cp[1], model, desc + " copied through its own constructor, source modified afterwards"
     return got[1], model, desc
 
 
@@ -261,7 +275,8 @@ def run_case(case, res):
                 raise Violation("lookup-value", f"m.setdefault({k!r}) -> {g}, expected {want}", {})
             model.setdefault(k, val)
         elif op == "update":
-            ks = [POOL[(ki + j * 5 + aux) % len(POOL)] for j in range(1 + aux % 4)]
+            nk = 1 + aux % 4 if aux % 6 else 16 + aux % 7          # sometimes a big batch (more keys than the pool: repeats)
+            ks = [POOL[(ki + j * 5 + aux) % len(POOL)] for j in range(nk)]
             pairs = [(kk, f"u{step}_{j}") for j, kk in enumerate(ks)]
             desc = f"update({pairs!r})"
             g = _g(desc, lambda: s.update(dict(pairs) if aux % 2 else pairs))
